@@ -73,6 +73,11 @@ func verifOnceRun(nodelay, interval, resend, nc, wnd, delay, pattern, mtu int, c
 		k.WndSize(wnd, max(wnd, 32))
 		k.SetMtu(mtu)
 	}
+	if pattern == 0 && wnd > 32 {
+		// asymmetric windows, still inside the premise: the receiver keeps the default 32/32 (its
+		// receive window is the 32 segments a sender assumes before it is told)
+		b.WndSize(32, 32)
+	}
 	minrto := uint32(100)
 	if nodelay != 0 {
 		minrto = 30
@@ -92,6 +97,9 @@ func verifOnceRun(nodelay, interval, resend, nc, wnd, delay, pattern, mtu int, c
 		switch pattern {
 		case 0:
 			burst = 8
+			if wnd > 32 {
+				burst = totalMsgs // everything at once: the first flight is what the windows allow
+			}
 		case 1:
 			if tick%3 == 0 {
 				burst = 1
